@@ -6,6 +6,7 @@ package main
 import (
 	"fmt"
 	"math"
+	"os"
 
 	"github.com/launchdarkly/go-sdk-common/v3/ldattr"
 	"github.com/launchdarkly/go-sdk-common/v3/ldcontext"
@@ -350,6 +351,9 @@ func (g *gen) refMal() WRef {
 	return mkRef("lit", "")
 }
 
+// aliasEnabled: set VERIF_NO_ALIAS=1 to generate only key-consistent stores.
+var aliasEnabled = os.Getenv("VERIF_NO_ALIAS") == ""
+
 // bucketOf asks the real code (through the hook) for the context's bucket; used only to *place*
 // split points, never as an expected value.
 func bucketOf(sec bool, ctx ldcontext.Context, isExp bool, seed *int, ck, key string, by ldattr.Ref, salt string) float64 {
@@ -519,7 +523,65 @@ func (g *gen) bucketDenseCase(id string) *EvalCase {
 }
 
 // genStream produces the i-th case of a stream.
+// aliasStore makes the data provider "inconsistent" the way application code may be: some items are
+// returned for a lookup key that differs from their own Key field (the item keeps being found by
+// the references that used its old key, but the key it carries — which is what the evaluator puts
+// on its cycle-detection chains, in events, in big-segment references and in hash inputs — is a
+// different one, possibly that of another item).
+func aliasStore(c *EvalCase, r *rng) {
+	if len(c.Store.Flags)+len(c.Store.Segments) == 0 {
+		return
+	}
+	own := func(old string, others []string) string {
+		switch r.intn(4) {
+		case 0:
+			if len(others) > 0 {
+				return others[r.intn(len(others))] // collide with another item's key
+			}
+		case 1:
+			return c.Flag.Key // collide with the evaluated flag's key
+		case 2:
+			return ""
+		}
+		return old + "-v2"
+	}
+	fk := []string{}
+	for _, f := range c.Store.Flags {
+		fk = append(fk, f.Key)
+	}
+	for i := range c.Store.Flags {
+		if r.chance(1, 2) {
+			lk := c.Store.Flags[i].lookupKey()
+			c.Store.Flags[i].LK = &lk
+			c.Store.Flags[i].Key = own(c.Store.Flags[i].Key, fk)
+		}
+	}
+	sk := []string{}
+	for _, s := range c.Store.Segments {
+		sk = append(sk, s.Key)
+	}
+	for i := range c.Store.Segments {
+		if r.chance(1, 2) {
+			lk := c.Store.Segments[i].lookupKey()
+			c.Store.Segments[i].LK = &lk
+			c.Store.Segments[i].Key = own(c.Store.Segments[i].Key, sk)
+		}
+	}
+	c.Tags = append(c.Tags, "aliased-store")
+}
+
+// aliasStreams: streams in which one case in eight gets an inconsistent data provider.
+var aliasStreams = map[string]bool{"graphs": true, "malformed": true, "prereqs": true, "segments": true, "bigseg": true, "wellformed": true}
+
 func genStream(name string, r *rng, id string) *EvalCase {
+	c := genStream0(name, r, id)
+	if aliasStreams[name] && aliasEnabled && r.chance(1, 8) {
+		aliasStore(c, r)
+	}
+	return c
+}
+
+func genStream0(name string, r *rng, id string) *EvalCase {
 	g := &gen{r: r}
 	switch name {
 	case "graphs":
